@@ -358,6 +358,8 @@ def run(tier, seed, deep, hints):
     sample = None
     with core.Scratch() as tmp:
         for i in range(n):
+            if core.search_expired():
+                break
             idx = i % len(CASES)
             s = rng.randrange(2**48)
             try:
